@@ -16,6 +16,7 @@
 -/
 import GfsModel.Pad
 import GfsModel.Sequence
+import GfsModel.Disk
 
 namespace Gfs.Cpp
 
@@ -144,5 +145,95 @@ def singleSeq (st : PadStyle) (path dir base frame ext : Bytes) : Except Err Seq
     let s1 := setExt ((setDirname s dir).setBasename base) ext
     if frame.isEmpty then .ok ((s1.setFrameSet none).setPadding [])
     else .ok (s1.setFrameRange frame).1
+
+/-! ### The port's directory scan (`findSequencesOnDisk`, fileseq.cpp), without a template
+
+  One pass over the directory entries sorts the names into buckets keyed by (basename, ext) —
+  a `std::map`, whose iteration order the observation sorts away, so the buckets are kept here in
+  first-seen order exactly as in the model of the Go scan — or, for names without a usable frame
+  number, into the list of single files; a second pass turns every bucket into a sequence.
+  `getSingleFrameMatch` is the same pattern as Go's `optionalFramePattern` (`optFrame`). -/
+
+/-- `SeqInfo` of fileseq_p.h: the frames are kept as numbers only -/
+structure CInfo where
+  base : Bytes
+  ext : Bytes
+  frames : List Int          -- in arrival order
+  minWidth : Nat
+  padding : Bytes
+  deriving Repr
+
+/-- the `seqsMap.find(key)` / create / update step for one numbered name -/
+def addFrame (st : PadStyle) (base ext frame : Bytes) : List CInfo → List CInfo
+  | [] => [⟨base, ext, [num frame], frame.length, padChars st frame.length⟩]
+  | b :: bs =>
+    if b.base = base ∧ b.ext = ext then
+      let b1 := { b with frames := b.frames ++ [num frame] }
+      (if frame.length < b.minWidth then
+         { b1 with minWidth := frame.length, padding := padChars st frame.length }
+       else b1) :: bs
+    else b :: addFrame st base ext frame bs
+
+/-- the first pass over the directory entries. A sub-directory is skipped, then the hidden-file
+    filter applies, then a symlink is followed: a dangling one ends the scan with an error, one
+    to a directory is skipped. -/
+def scanEntries (o : ListOpts) (root : Bytes) :
+    List Entry → List CInfo → List Seq → Except Err (List CInfo × List Seq)
+  | [], bs, files => .ok (bs, files)
+  | e :: rest, bs, files =>
+    if e.kind = .dir then scanEntries o root rest bs files
+    else if !o.hidden ∧ isPrefixOf ['.'] e.name then scanEntries o root rest bs files
+    else if e.kind = .dangling then .error .io
+    else if e.kind = .linkDir then scanEntries o root rest bs files
+    else
+      let m := optFrame e.name
+      let (base, frame, ext) := m.getD ([], [], [])
+      let ok := m.isSome ∧ !frame.isEmpty ∧ !(base.isEmpty ∧ ext.isEmpty)
+      if ok then scanEntries o root rest (addFrame o.style base ext frame bs) files
+      else if o.single then
+        match singleSeq o.style (root ++ e.name) root base frame ext with
+        | .error err => .error err
+        | .ok s => scanEntries o root rest bs (files ++ [s])
+      else scanEntries o root rest bs files
+
+/-- the digit test on the end of a basename that clears the pad of a one-frame bucket -/
+def lastIsDigit (base : Bytes) : Bool :=
+  if base.isEmpty then false else
+  let pos := if isSuffixOf ['-'] base ∧ base.length ≥ 2 then 2 else 1
+  match base.reverse.drop (pos - 1) with
+  | c :: _ => isDigit c
+  | [] => false
+
+/-- the second pass, one bucket -/
+def bucketOut (st : PadStyle) (root : Bytes) (b : CInfo) : Except Err Seq :=
+  match b.frames with
+  | [f] => bucketSeq st root b.base (itoa f) (if lastIsDigit b.base then [] else b.padding) b.ext
+  | fs => bucketSeq st root b.base (framesToFrameRange fs true 0) b.padding b.ext
+
+def bucketsOut (st : PadStyle) (root : Bytes) : List CInfo → Except Err (List Seq)
+  | [] => .ok []
+  | b :: bs =>
+    match bucketOut st root b with
+    | .error e => .error e
+    | .ok s =>
+      match bucketsOut st root bs with
+      | .error e => .error e
+      | .ok l => .ok (s :: l)
+
+/-- `root`: the path with a separator appended unless it ends in one -/
+def rootOf (path : Bytes) : Bytes :=
+  if !path.isEmpty ∧ !isSuffixOf ['/'] path then path ++ ['/'] else path
+
+/-- `findSequencesOnDisk(seqs, path, opts, style)`; `none` = opendir fails -/
+def scan (d : DirSpec) (path : Bytes) (o : ListOpts) : Except Err (List Seq) :=
+  match d with
+  | none => .error .io
+  | some entries =>
+    match scanEntries o (rootOf path) entries [] [] with
+    | .error e => .error e
+    | .ok (bs, files) =>
+      match bucketsOut o.style (rootOf path) bs with
+      | .error e => .error e
+      | .ok seqs => .ok (files ++ seqs)
 
 end Gfs.Cpp
